@@ -80,9 +80,16 @@ type Plan struct {
 	SharedPool bool `json:"shared_pool,omitempty"`
 	// Checks selects oracle families beyond the always-on ones.
 	Checks map[string]bool `json:"checks,omitempty"`
+	// Script injects exactly these faults (by ordinal of the seam event in the
+	// run) regardless of the decision stream: fault enumeration.
+	Script []ScriptedFault `json:"script,omitempty"`
+	// ScriptChain applies chain events after the n-th successful Converge.
+	ScriptChain []ScriptedChain `json:"script_chain,omitempty"`
 	// Idle lists pair keys ("src/ig") that get no runner (never started).
 	Idle []string `json:"idle,omitempty"`
 	Note string   `json:"note,omitempty"`
+	// ExpectSem: the fault-free run\'s semantic state hash (retry oracle).
+	ExpectSem string `json:"expect_sem,omitempty"`
 }
 
 func (p *Plan) JSON() string {
@@ -125,4 +132,24 @@ func (p *Plan) ConfigJSON(urlsFor func(src string) []string) ([]byte, error) {
 	}
 	root.Integrations = p.Decls
 	return json.Marshal(root)
+}
+
+// ScriptedFault: at the Ordinal-th event of Seam ("pg" or "http", counted from
+// 0 over the whole run, current generation only) apply Kind.
+// pg kinds: error, drop-before, drop-after, crash-before, crash-after.
+// http kinds: conn_err, bad_status, truncated, non_json, rpc_error, null_result, stall.
+type ScriptedFault struct {
+	Seam    string `json:"seam"`
+	Ordinal int    `json:"ordinal"`
+	Kind    string `json:"kind"`
+	Elem    int    `json:"elem,omitempty"` // element of a batch (rpc_error, null_result), cut point (truncated)
+}
+
+type ScriptedChain struct {
+	AfterOK int    `json:"after_ok"`
+	Src     string `json:"src"`
+	Action  string `json:"action"` // grow | reorg
+	N       int    `json:"n,omitempty"`
+	Depth   int    `json:"depth,omitempty"`
+	NewLen  int    `json:"new_len,omitempty"`
 }
